@@ -177,7 +177,7 @@ def h_generated_system(eng, form):
 UNITS4 = ["ua", "ub", "uc", "ud"]
 
 
-def h_membership(eng, edit, pre="all"):
+def h_membership(eng, edit, pre="all", order="by-user"):
     """3 groups G0..G2 ('using' edges i -> j for i < j) and a system over 4 units; every
     membership and edge is a symbolic boolean; one edit, then the closure again.  ``pre`` says
     which answers were read (and so memoised) before the edit: invalidation must not depend on
@@ -194,11 +194,12 @@ def h_membership(eng, edit, pre="all"):
             if bool(eng.boolean(f"m{i}{u}")):
                 G[i].add_units(u)
                 mem[i].add(u)
-    for i in range(3):
-        for j in range(i + 1, 3):
-            if bool(eng.boolean(f"e{i}{j}")):
-                G[i].add_groups(f"G{j}")
-                uses[i].add(j)
+    # (order of the 'using' edges: by user, or the chain G0 -> G1 -> G2 first and the direct edge
+    # G0 -> G2 last, when G2 is already reachable from G0)
+    for i, j in ((0, 1), (0, 2), (1, 2)) if order == "by-user" else ((0, 1), (1, 2), (0, 2)):
+        if bool(eng.boolean(f"e{i}{j}")):
+            G[i].add_groups(f"G{j}")
+            uses[i].add(j)
     S = ureg.get_system("S")
     S.remove_groups("root")  # a system declared without 'using' starts with the root group
     sys_groups = set()
@@ -511,6 +512,9 @@ def cases(tier, seed):
     for e in edits:
         for pre in ("all", "G0", "S", "compat") + (("G1", "none") if big else ()):
             out.append(Case("H14.c", f"{e[0]}:{e[1]}:{e[2]}:pre={pre}", M, "h_membership", {"edit": list(e), "pre": pre}, opts={"max_paths": 5000}, validate=2 if pre == "all" else 0, weight=40.0))
+    for e in (("remove_groups", 1, 2), ("remove_groups", 0, 1), ("remove_units", 1, "ub"), ("add_groups", 2, 0)):
+        for pre in ("all", "none"):
+            out.append(Case("H14.c", f"chain-first:{e[0]}:{e[1]}:{e[2]}:pre={pre}", M, "h_membership", {"edit": list(e), "pre": pre, "order": "chain-first"}, opts={"max_paths": 5000}, validate=0, weight=40.0))
     for sep in (", ", ",", " , ", ",  ", " ,") if big else (", ", ",", ",  "):
         out.append(Case("H14.c", f"text:sep={sep!r}", M, "h_membership_text", {"sep": sep}, opts={"max_paths": 5000}, validate=2, weight=40.0))
     for where in ("first", "second", "only"):
